@@ -159,6 +159,7 @@ class Blocking(O.Monitor):
         log = Q.obslog
         finished = []
         bypass = set()          # destinations entered in this event by customers that ignore capacities (re-routed / jockeying)
+        entries = {}
         while self.k < len(log):
             e = log[self.k]
             self.k += 1
@@ -166,6 +167,8 @@ class Blocking(O.Monitor):
                 finished.append(e)
             elif e[0] == "route":
                 bypass.add(e[5])
+            elif e[0] == "accept" and e[4]:
+                entries.setdefault(e[2], []).append(e[3])       # blocked customers in the order in which they entered node e[2] in this event
         for e in finished:
             ind, src, dest = e[3], e[2], e[5]
             if id(ind) in self.blocked:
@@ -195,6 +198,13 @@ class Blocking(O.Monitor):
                 rep("unblocked-only-into-free-space", {"destination": dest, "population": pops.get(dest), "capacity": cap_d,
                                                        "entered": [b["ind"].id_number for b in bs]})
             head = q[:len(bs)]
+            order = [x for x in entries.get(dest, []) if any(x is b["ind"] for b in bs)]
+            if len(order) >= 2:
+                self.activity["several_unblocked_into_one_node_in_one_event"] = self.activity.get("several_unblocked_into_one_node_in_one_event", 0) + 1
+                want = [x for x in q if any(x is y for y in order)]
+                if [id(x) for x in want] != [id(x) for x in order]:
+                    rep("unblocked-in-blocking-order-within-an-event", {"destination": dest, "entered_in_order": [x.id_number for x in order],
+                                                                        "blocked_in_order": [x.id_number for x in want]})
             if set(id(b["ind"]) for b in bs) != set(id(x) for x in head):
                 rep("longest-blocked-enters-first", {"destination": dest, "entered": sorted(b["ind"].id_number for b in bs),
                                                      "longest_blocked": [x.id_number for x in q[:len(bs) + 1]]})
